@@ -47,7 +47,12 @@ func (inst *Inst) dump() *Dump {
 			do := &dObj{spatial: objIsSpatial(o.Geo()), fields: map[string]string{}, expires: o.Expires()}
 			do.obj = o.Geo().String()
 			o.Fields().Scan(func(f field.Field) bool {
-				do.fields[f.Name()] = f.Value().Data()
+				// (kind included: a string whose text reads as another kind is kept quoted)
+				k := fkNumber
+				if f.Value().Kind() == field.String {
+					k = fkString
+				}
+				do.fields[f.Name()] = canonField(k, f.Value().Data())
 				return true
 			})
 			m[o.ID()] = do
